@@ -267,6 +267,8 @@ def b_history(case, ctx):
             if frm_eff in m.nodes and to in m.ancestors(frm_eff):
                 continue
             kw, M = op_matrix(op[3])
+            if 0 < np.abs(M - np.eye(4)).max() < 1e-6:
+                continue  # keep clear of the documented identity filter (1e-8) of SceneGraph.get
             old = m.parent.get(to)
             if old is not None and old[0] == frm_eff and 0 < np.abs(old[1] - M).max() < 1e-3:
                 continue  # keep clear of the documented 1e-8 "unchanged" shortcut
@@ -288,6 +290,8 @@ def b_history(case, ctx):
             if to == m.base or (m.base in m.nodes and to in m.ancestors(m.base)):
                 continue
             M = np.array(op[2]["M"], dtype=np.float64)
+            if 0 < np.abs(M - np.eye(4)).max() < 1e-6:
+                continue
             old = m.parent.get(to)
             if old is not None and old[0] == m.base and 0 < np.abs(old[1] - M).max() < 1e-3:
                 continue
